@@ -273,7 +273,7 @@ def run(ctx) -> None:
         for path in paths(coll):
             if not path:
                 continue
-            for value, delete in [(None, True)] + [(r, False) for r in REPL[:24] + [r for r in REPL[24:] if "__k__" in json.dumps(r, default=str)]]:
+            for value, delete in [(None, True)] + [(r, False) for r in REPL[:24] + [r for r in REPL[24:] if "__k__" in json.dumps(r, default=str) or (isinstance(r, str) and 30 <= len(r) <= 40) or (isinstance(r, list) and r and all(isinstance(x, str) and len(x) >= 30 for x in r))]]:
                 i += 1
                 if i % ctx.nshards != ctx.shard:
                     continue
